@@ -345,6 +345,17 @@ def case_info(col, p):
             col.violation('C19:GIM_uncert:boot_theta_adjusts:closed_form', info, {'relerr': e_, 'bound': bound})
         if not np.allclose(got_G, got_G2, rtol=1e-9 * max(1.0, float(np.linalg.cond(Jadj))), atol=0):
             col.violation('C19:bootstrap_order_dependence', dict(info, what='boot_theta_adjusts reversed'), '')
+        if not log:
+            for nested in ([k - 1], list(range(k))):
+                Godambe.cache.clear()
+                got_l = Godambe.LRT_adjust(f, [20], boots, list(p0), data, nested, multinom=False, eps=eps, boot_theta_adjusts=adj)
+                col.tick(transitions=1)
+                Hn = Hc[np.ix_(nested, nested)]
+                Jn = sum(np.outer(g[nested], g[nested]) for g in gadj) / len(gadj)
+                ex_l = len(nested) / float(np.trace(Jn @ np.linalg.inv(Hn)))
+                tol_l = 2e-3 * max(1.0, float(np.linalg.cond(Hn)) * 1e-3)
+                if not abs(got_l / ex_l - 1) <= tol_l:
+                    col.violation('C19:LRT_adjust:boot_theta_adjusts:closed_form', dict(info, nested=nested), {'got': float(got_l), 'exact': ex_l})
         if not np.array_equal(H_before, H_after):
             col.violation('C19:result_depends_on_call_history', dict(info, what='FIM after GIM with boot_theta_adjusts'),
                           {'maxrel': float(np.max(np.abs(H_after - H_before)) / np.max(np.abs(H_before)))})
